@@ -68,3 +68,37 @@ Proof.
                         | exact (tie_prepare_read_missing _ _ _ _ _) | exact (tie_prepare_read_of_missing _ _ _ _ _)].
 Qed.
 Print Assumptions C18_source_read_metrics.
+
+From Coq Require Import String.
+From Cache Require Import TieBackend.
+Open Scope string_scope.
+Open Scope Z_scope.
+
+(* the Notify* functions emit cache_write 1, cache_delete 1, cache_expired n, cache_delete n — once, and only with a
+   tracker attached *)
+Theorem C18_source_notify : forall has_log has_stat cnt,
+  run_notify fn_Trait_NotifyWritten [VPtr true "c"; VPtr true "ctx"; VPtr true "key"; VZ 0; VZ 0] has_log has_stat
+    = Some (one has_stat "cache_write" (VF (FConst 1 1))) /\
+  run_notify fn_TraitOf_NotifyWritten [VPtr true "c"; VPtr true "ctx"; VPtr true "key"; VZ 0; VZ 0] has_log has_stat
+    = Some (one has_stat "cache_write" (VF (FConst 1 1))) /\
+  run_notify fn_Trait_NotifyDeleted [VPtr true "c"; VPtr true "ctx"; VPtr true "key"] has_log has_stat
+    = Some (one has_stat "cache_delete" (VF (FConst 1 1))) /\
+  run_notify fn_Trait_NotifyExpiredAll [VPtr true "c"; VPtr true "ctx"; VPtr true "start"; VZ cnt] has_log has_stat
+    = Some (one has_stat "cache_expired" (VF (FOfZ cnt))) /\
+  run_notify fn_Trait_NotifyDeletedAll [VPtr true "c"; VPtr true "ctx"; VPtr true "start"; VZ cnt] has_log has_stat
+    = Some (one has_stat "cache_delete" (VF (FOfZ cnt))).
+Proof. exact tie_notify. Qed.
+Print Assumptions C18_source_notify.
+
+(* Write and Delete call NotifyWritten / NotifyDeleted exactly once per stored / removed entry *)
+Theorem C18_source_write_delete_notify_once : forall v ttl at_ present same,
+  run_write fn_shardedMap_Write v ttl at_ = Some (write_spec true "TraitEntry" v ttl at_) /\
+  run_write fn_shardedMapOf_Write v ttl at_ = Some (write_spec true "TraitEntryOf[V]" v ttl at_) /\
+  run_write fn_syncMap_Write v ttl at_ = Some (write_spec false "TraitEntry" v ttl at_) /\
+  run_delete fn_shardedMap_Delete present same = Some (delete_spec_sharded present same) /\
+  run_delete fn_shardedMapOf_Delete present same = Some (delete_spec_sharded present same).
+Proof.
+  intros. destruct (tie_write v ttl at_) as (H1 & H2 & H3). destruct (tie_delete_sharded present same) as (H4 & H5).
+  repeat split; assumption.
+Qed.
+Print Assumptions C18_source_write_delete_notify_once.
